@@ -235,11 +235,18 @@ def rrs_layer(ctx, repo, hdap_ci, hdap_stub):
 
     I3 = Interp(repo)
     install_decoder(I3, repo, [(f"rrs:{n}", rrs_maker(n)) for n in rrs_types] + [("hdap", hdap_stub)])
-    I3.summaries[repo.find_method(ip_ci, "as_ip").qualname] = lambda I_, fi, args, kw, bc: ("ip-of", id(args[0]))
+    I3.summaries[repo.find_method(ip_ci, "as_ip").qualname] = lambda I_, fi, args, kw, bc: "10.0.0.100"
 
     def run_r(st):
         I3.st = st
         ci, h, conn = make_handler(I3, repo, RMOD, "RRSDatagramProtocol")
+        # the radio's earlier history: never seen / last seen registering / last seen going offline
+        if st.choose("history:online"):
+            h.attrs["registry"] = {"10.0.0.100": states["Online"]}
+        elif st.choose("history:offline"):
+            h.attrs["registry"] = {"10.0.0.100": states["Offline"]}
+        h.attrs["registry"]["10.0.0.200"] = states["Online"]
+        st.__dict__["registry_before"] = dict(h.attrs["registry"])
         r = I3.call(rdr, [h, ABits([I3.atom_form(("raw", i)) for i in range(64)], "bytes"), ("10.0.0.1", 50000)], {})
         return h, r
 
@@ -267,18 +274,21 @@ def rrs_layer(ctx, repo, hdap_ci, hdap_stub):
         elif op == rrs_types.get("RadioGoingOffline"):
             want = states["Offline"]
         confirms = [e for e in sends(st) if e[3].startswith(f"{RMOD}:RRSDatagramProtocol.rrs_confirm")]
+        before = st.__dict__.get("registry_before", {})
         if want is None:
-            if registry:
-                reg_bad.append(f"registry written for payload opcode {op}")
+            if registry != before:
+                reg_bad.append(f"registry changed for payload opcode {op}")
             if confirms:
                 conf_bad.append(f"{len(confirms)} confirm(s) for payload opcode {op}")
             continue
-        key = ("ip-of", id(req.attrs["payload"].attrs.get("radio_ip")))
-        if list(registry.keys()) != [key] or registry.get(key) != want:
-            reg_bad.append(f"opcode {op.name}: registry is {dict((str(k_)[:12], v_) for k_, v_ in registry.items())}, expected one entry {want}")
+        key = "10.0.0.100"
+        expect = dict(before)
+        expect[key] = want
+        if registry != expect:
+            reg_bad.append(f"opcode {op.name} with history {before.get(key)}: registry is {registry}, expected {expect}")
         n_want = 1 if want == states["Online"] else 0
         if len(confirms) != n_want:
-            conf_bad.append(f"opcode {op.name}: {len(confirms)} confirm datagram(s), expected {n_want}")
+            conf_bad.append(f"opcode {op.name} with history {before.get(key)}: {len(confirms)} confirm datagram(s), expected {n_want}")
         for e in confirms:
             d = sent_bytes(e)
             if not isinstance(d, ABits) or len(d.items) < 48:
